@@ -437,7 +437,9 @@ def rule_counter(ctx):
                             "data sections a curve that got data earlier is never NaN-filled to the new length" % book)
         else:
             v = binit[0].value
-            if not (isinstance(v, ast.DictComp) and "False" in ast.unparse(v.value) and "range(len(" in ast.unparse(v)):
+            fromkeys = (isinstance(v, ast.Call) and ast.unparse(v.func) == "dict.fromkeys" and len(v.args) == 2
+                        and "range(len(" in ast.unparse(v.args[0]) and isinstance(v.args[1], ast.Constant) and v.args[1].value is False)
+            if not fromkeys and not (isinstance(v, ast.DictComp) and "False" in ast.unparse(v.value) and "range(len(" in ast.unparse(v)):
                 problems.append("the record of assigned columns is initialised as `%s`, expected {index: False for every "
                                 "declared curve}" % unparse(v))
         # NaN fill loop
@@ -450,7 +452,18 @@ def rule_counter(ctx):
             iff = enclosing(s, (ast.If,))
             if fl is None or book not in ast.unparse(fl.iter):
                 problems.append("the NaN fill does not iterate over the record of assigned columns")
-            if iff is None or "False" not in ast.unparse(iff.test):
+            restricted = iff is not None and "False" in ast.unparse(iff.test)
+            if not restricted and fl is not None and isinstance(fl.target, ast.Tuple) and len(fl.target.elts) == 2 and isinstance(fl.target.elts[1], ast.Name):
+                # guard-clause form: `if <flag>: continue` before the fill, <flag> being the value variable of the loop
+                flag = fl.target.elts[1].id
+                for st in fl.body:
+                    if st is s or any(x is s for x in ast.walk(st)):
+                        break
+                    if isinstance(st, ast.If) and not st.orelse and len(st.body) == 1 and isinstance(st.body[0], ast.Continue):
+                        t = st.test
+                        if (isinstance(t, ast.Name) and t.id == flag) or ast.unparse(t) in ("%s is True" % flag, "%s is not False" % flag):
+                            restricted = True
+            if not restricted:
                 problems.append("the NaN fill is not restricted to curves that received no column")
             lens = [n.id for n in ast.walk(s.value) if isinstance(n, ast.Name)]
             # common length variable: assigned len(<column>) in the loop
